@@ -336,11 +336,12 @@ func ParseLocal(data []byte, filename string, base *File) (*File, error) {
 		}
 	}
 	eff := &File{
-		Module:   base.Module,
-		Language: base.Language,
-		Source:   base.Source,
-		Custom:   base.Custom,
-		Deps:     local.Deps,
+		Module:      base.Module,
+		Language:    base.Language,
+		Source:      base.Source,
+		Description: base.Description,
+		Custom:      base.Custom,
+		Deps:        local.Deps,
 	}
 	if err := eff.InitNonStrict(); err != nil {
 		return nil, fmt.Errorf("invalid module file %s: %v", filename, err)
